@@ -32,6 +32,9 @@ def main():
                 rep.holds("SELFTEST", r["name"], "%s mutant -> rc %s %s" % (r.get("kind"), r.get("rc"), r.get("expect", "")), sample=(r.get("kind") == "break" and len(rep.samples) < 30))
             else:
                 rep.broken("SELFTEST", "mutant %s (%s) gave rc %s, expected %s" % (r["name"], r.get("kind"), r.get("rc"), r.get("expect") or "rc 0"))
+    if os.environ.get("VSA_REFGEN"):
+        from . import align
+        align.dump()
     rc = rep.finish()
     if a.replay:
         r = json.load(open(a.replay))
